@@ -178,7 +178,7 @@ def family(tier):
     items = []
     base = list(F.undirected([1, 2, 3], 3)) + list(F.undirected([1, 2, 3, 4], 2, min_edges=1))
     if not q:
-        base = list(F.undirected([1, 2, 3, 4], 3))
+        base = list(F.undirected([1, 2, 3, 4], 3)) + list(F.undirected([1, 2, 3, 4, 5], 2, min_edges=2))
     step = 2 if q else 1
     for s in base[::step]:
         items.append(("H", decorate(s, 0)))
